@@ -7,6 +7,7 @@ from contracts.wire import DecoderTask
 def main(tier):
     run = PropertyRun('C20', tier, level='other')
     run.add(I.ReceiveImplTask('C20', 'WaveShareNmea2000Gateway'))
+    run.add(I.ReceiveImplTask('C20', 'WaveShareNmea2000Gateway', later_iteration=True))
     run.add(DecoderTask('usb', prop='C20'))
     from pyvc.tasks import SpecTask
     from contracts.utils_c import Checksum
